@@ -80,3 +80,10 @@ Proof.
   etransitivity; [apply cert_bound; apply H; exact Hr | apply bnd_poly].
 Qed.
 Print Assumptions C07_all_patterns_polynomial.
+
+(* the certificate is hereditary: the bound holds for the search started at ANY sub-expression (look-around bodies
+   included) of a certified pattern at ANY position, so also inside a branch that fails later *)
+Theorem C07_bound_for_every_subexpression : forall r, cert r = true -> forall r', In r' (subexprs r) ->
+  forall st c, length (ends r' st c) <= (length (after st) + 2) ^ deg r'.
+Proof. exact cert_bound_everywhere. Qed.
+Print Assumptions C07_bound_for_every_subexpression.
